@@ -16,6 +16,7 @@ from __future__ import annotations
 
 import json
 import os
+import shutil
 import subprocess
 import sys
 
@@ -156,11 +157,16 @@ def prepare_cwd(root, name):
     os.makedirs(os.path.join(d, "specs", "schemas"))
     with open(os.path.join(d, "specs", "schemas", "gen_det.oct.md"), "w", encoding="utf-8") as fh:
         fh.write(GEN_DET)
+    # a project-local file named like a schema the package ships: the packaged one is found first, wherever the project lives
+    for sub in (("specs", "schemas"), ("src", "octave_mcp", "resources", "specs", "schemas")):
+        os.makedirs(os.path.join(d, *sub), exist_ok=True)
+        with open(os.path.join(d, *sub, "debate_transcript.oct.md"), "w", encoding="utf-8") as fh:
+            fh.write(GEN_DET.replace("GEN_DET", "DEBATE_TRANSCRIPT"))
     if name == "B":
         for f in ("unrelated.txt", "zzz.oct.md", "README.md"):
             with open(os.path.join(d, f), "w") as fh:
                 fh.write("noise\n")
-        os.makedirs(os.path.join(d, "src"))
+        os.makedirs(os.path.join(d, "src"), exist_ok=True)
     return d
 
 
@@ -170,6 +176,7 @@ def run_workers(calls, cfgs, root, workers):
         json.dump(calls, fh, ensure_ascii=False)
     dirs = {"A": prepare_cwd(root, "A"), "B": prepare_cwd(root, "B")}
     procs = []
+    outside: list = []
     results = {}
     pending = list(enumerate(cfgs))
     running = []
@@ -177,7 +184,15 @@ def run_workers(calls, cfgs, root, workers):
         while pending and len(running) < workers:
             i, cfg = pending.pop(0)
             # every worker gets its own copy of the cwd so that concurrent workers do not share output files
+            # ... at an absolute path that sorts BEFORE the installation ("A": under /dev/shm when writable) or AFTER it ("B": a
+            # name starting with '~'), so that nothing may depend on how the working directory compares with the package path
             wd = os.path.join(root, f"cwd{i}_{cfg['cwd']}")
+            if cfg["cwd"] == "A" and os.access("/dev/shm", os.W_OK):
+                wd = f"/dev/shm/0octave-verif-{os.getpid()}-cwd{i}_A"
+            elif cfg["cwd"] == "B":
+                wd = os.path.join(os.path.dirname(root.rstrip("/")), f"~octave-verif-{os.getpid()}-cwd{i}_B")
+            shutil.rmtree(wd, ignore_errors=True)
+            outside.append(wd)
             subprocess.run(["cp", "-r", dirs[cfg["cwd"]], wd], check=True)
             env = {k: v for k, v in os.environ.items() if k not in ("LANG", "LC_ALL", "LC_CTYPE", "PYTHONHASHSEED")}
             env.update({"PYTHONHASHSEED": cfg["hashseed"], "LANG": cfg["lang"], "LC_ALL": cfg["lang"], "PYTHONPATH": f"{VERIF_HOME}:{os.path.join(VERIF_HOME, '.deps')}",
@@ -201,6 +216,8 @@ def run_workers(calls, cfgs, root, workers):
             import time
 
             time.sleep(0.05)
+    for wd in outside:
+        shutil.rmtree(wd, ignore_errors=True)
     return results
 
 
